@@ -990,8 +990,10 @@ def _create_socks_endpoint(reactor, control_protocol, socks_config=None):
         socks_ports = []
 
     # everything in the SocksPort list can include "options" after the
-    # initial value. We don't care about those, but do need to strip
-    # them.
+    # initial value. We don't care about those to pick an endpoint
+    # (so strip them) but must keep the lines exactly as Tor reported
+    # them in case we have to send them back.
+    socks_lines = list(socks_ports)
     socks_ports = [port.split()[0] for port in socks_ports]
 
     # could check platform? but why would you have unix ports on a
@@ -1019,12 +1021,14 @@ def _create_socks_endpoint(reactor, control_protocol, socks_config=None):
             # this?
             port = yield available_tcp_port(reactor)
             socks_config = str(port)
-        socks_ports.append(socks_config)
+        socks_lines.append(socks_config)
 
         # NOTE! We must set all the ports in one command or we'll
-        # destroy pre-existing config
+        # destroy pre-existing config (and each existing line must
+        # keep its options, or Tor re-creates that listener without
+        # e.g. its isolation flags)
         args = []
-        for p in socks_ports:
+        for p in socks_lines:
             args.append('SOCKSPort')
             args.append(p)
         yield control_protocol.set_conf(*args)
